@@ -57,6 +57,7 @@ struct world
     int via = 1;                         // connection of the operation being executed
     std::deque<dj::crate> scratch_c;     // handles looked up in the second connection for one operation
     std::deque<dj::track> scratch_t;
+    bool syscrash = false;   // crash points are system calls of SQLite's VFS instead of statements (with flag crash)
     bool locks = false;   // lock sweep (library on disk): every call is first attempted while another connection holds a lock
     bool u8 = false;   // name tokens of the model are given to the library as names with multi-byte UTF-8 characters
     bool dead = false;  // rest of this execution is skipped
@@ -371,7 +372,8 @@ void start_world(world& w, const json& r)
     w.noobs = r.value("noobs", false);
     w.u8 = r.value("u8", false);
     w.locks = r.value("locks", false) && r.value("mode", "mem") == "disk";
-    w.crash = r.value("crash", false) && r.value("mode", "mem") == "disk";
+    w.crash = (r.value("crash", false) || r.value("syscrash", false)) && r.value("mode", "mem") == "disk";
+    w.syscrash = r.value("syscrash", false);
     for (auto& n : r.value("names", json::array()))
         w.names.push_back(n.get<std::string>());
     shim::reset_dbs();
@@ -835,7 +837,56 @@ void exec_op(world& w, const json& op)
             crates_before.insert(c.id());
         for (auto& t : w.db->tracks())
             tracks_before.insert(t.id());
-        for (int k = 1; k <= 64 && !w.dead; ++k)
+        // (syscall-level crash points) what every database FILE looks like before the call and after the complete call:
+        // the call is first run to its end by a forked process, the per-file digests are taken, and the files are put back.
+        std::vector<std::pair<std::string, std::string>> f_old;   // (attach order)
+        std::map<std::string, std::string> f_new;
+        if (w.syscrash)
+        {
+            for (auto& sc : vh::raw_reader{w.conn}.file_schemas())
+                f_old.emplace_back(sc, vh::raw_reader{w.conn}.digest_of(sc));
+            std::vector<int64_t> cids, tids;
+            close_handles(w, cids, tids);
+            std::error_code ec;
+            fs::remove_all(w.dir + ".bak", ec);
+            fs::copy(w.dir, w.dir + ".bak", fs::copy_options::recursive, ec);
+            fflush(nullptr);
+            pid_t pid = fork();
+            if (pid == 0)
+            {
+                alarm(0);
+                json dummy;
+                open_handles(w, cids, tids, dummy);
+                if (w.dead)
+                    _exit(44);
+                shim::begin_call();
+                auto oc = vh::guarded(name.c_str(), f);
+                _exit(oc.ok ? 43 : 45);
+            }
+            int status = 0;
+            if (pid > 0)
+                waitpid(pid, &status, 0);
+            json dummy;
+            open_handles(w, cids, tids, dummy);
+            if (!w.dead)
+                for (auto& kv : f_old)
+                    f_new[kv.first] = vh::raw_reader{w.conn}.digest_of(kv.first);
+            {
+                std::vector<int64_t> c2, t2;   // (the ids to look up again are those from BEFORE the pre-run)
+                close_handles(w, c2, t2);
+            }
+            w.dead = false;
+            fs::remove_all(w.dir, ec);
+            fs::rename(w.dir + ".bak", w.dir, ec);
+            open_handles(w, cids, tids, dummy);
+            if (w.dead || f_old.empty() || vh::raw_reader{w.conn}.digest_of("") .empty())
+            {
+                vh::emit({{"e", "skip"}, {"why", "syscrash pre-run failed"}});
+                w.dead = true;
+                return;
+            }
+        }
+        for (int k = 1; k <= (w.syscrash ? 400 : 64) && !w.dead; ++k)
         {
             std::string d0 = vh::raw_reader{w.conn}.digest();
             std::vector<int64_t> cids, tids;
@@ -858,7 +909,10 @@ void exec_op(world& w, const json& op)
                 if (!all)
                     _exit(46);
                 shim::begin_call();
-                shim::set_crash(k);
+                if (w.syscrash)
+                    vh::syscrash::arm(k);    // die right before the k-th file-modifying system call of SQLite's VFS
+                else
+                    shim::set_crash(k);
                 auto oc = vh::guarded(name.c_str(), f);
                 _exit(oc.ok ? 43 : 45);   // the call ran to its end (k exceeds its statements): returned / threw
             }
@@ -871,7 +925,7 @@ void exec_op(world& w, const json& op)
             }
             int code = WIFEXITED(status) ? WEXITSTATUS(status) : 1000 + (WIFSIGNALED(status) ? WTERMSIG(status) : 0);
             json r = rec;
-            r["crash"] = {{"k", k}, {"code", code}};
+            r["crash"] = {{"k", k}, {"code", code}, {"sys", w.syscrash}};
             open_handles(w, cids, tids, r);     // sets out / exists / want / loaded / ver
             if (w.dead)
             {
@@ -881,6 +935,20 @@ void exec_op(world& w, const json& op)
             }
             bool same = vh::raw_reader{w.conn}.digest() == d0;
             r["dsame"] = same;
+            if (w.syscrash)
+            {
+                // every file, in attach order: unchanged ("old") or not ("changed"); "touched": the complete call changes
+                // this file at all (pre-run).  (Equality with the pre-run's result is not asked for: rows carry the time
+                // of day.)
+                json files = json::array();
+                for (auto& kv : f_old)
+                {
+                    std::string d = vh::raw_reader{w.conn}.digest_of(kv.first);
+                    bool touched = f_new[kv.first] != kv.second;
+                    files.push_back({{"db", kv.first}, {"touched", touched}, {"is", d == kv.second ? "old" : "changed"}});
+                }
+                r["files"] = files;
+            }
             if (code != shim::CRASH_EXIT && code != 43 && code != 45)
             {
                 // the child died of something else (signal, sanitizer, could not load): that is a finding by itself
